@@ -164,3 +164,37 @@ def same_stmt(node, text):
     if isinstance(node, ast.Expr):
         return canon(node.value) == canon(ref.value)
     return ast.unparse(node).replace(' ', '') == ast.unparse(ref).replace(' ', '')
+
+
+def local_defs(stmts):
+    """name -> value for the simple (possibly tuple-unpacking) assignments of a statement list; names assigned more than once are dropped"""
+    defs, multi = {}, set()
+    for s in stmts:
+        for a in ast.walk(s):
+            if not isinstance(a, ast.Assign) or len(a.targets) != 1:
+                continue
+            t, v = a.targets[0], a.value
+            pairs = []
+            if isinstance(t, ast.Name):
+                pairs = [(t.id, v)]
+            elif isinstance(t, ast.Tuple) and isinstance(v, ast.Tuple) and len(t.elts) == len(v.elts) and all(isinstance(x, ast.Name) for x in t.elts):
+                pairs = [(x.id, y) for x, y in zip(t.elts, v.elts)]
+            for n, val in pairs:
+                if n in defs:
+                    multi.add(n)
+                defs[n] = val
+    for n in multi:
+        defs.pop(n, None)
+    return defs
+
+
+def inline(expr, defs, depth=8):
+    """expr with local names replaced (recursively) by their definitions"""
+    import copy
+
+    class Sub(ast.NodeTransformer):
+        def visit_Name(self, n):
+            if n.id in defs and depth > 0:
+                return inline(defs[n.id], defs, depth - 1)
+            return n
+    return Sub().visit(copy.deepcopy(expr))
